@@ -17,4 +17,15 @@ if ! cargo build --offline -p vcheck -p vbuild -p vgen >"$LOG" 2>&1; then
   tail -30 "$LOG" >&2
   exit 2
 fi
-exec "$ROOT/target/debug/vcheck" "$ID" --tier "$TIER" "$@"
+rm -f "$ROOT/work/fuzz-$ID.json"
+# replay files of earlier runs of this check are stale once it runs again
+[ $# = 0 ] && rm -f "$ROOT"/replays/"$ID"-*.json
+FZ=0
+if [ "$TIER" = thorough ] && [ $# = 0 ] && [ -z "${VERIF_NO_FUZZ:-}" ]; then
+  # coverage-guided campaigns over the same strategies and oracles (DESIGN.md section 6)
+  "$ROOT/harness/fuzz.sh" "$ID" "${VERIF_FUZZ_RUNS:-200000}"; FZ=$?
+fi
+"$ROOT/target/debug/vcheck" "$ID" --tier "$TIER" "$@"; RC=$?
+if [ $RC = 1 ] || [ $FZ = 1 ]; then exit 1; fi
+if [ $RC != 0 ]; then exit $RC; fi
+exit $FZ
